@@ -883,9 +883,24 @@ fn incr_child(prog: &str, input: &str, budget: u64) {
 
 // ---------------------------------------------------------------- app-level children
 
+static COLOR_ALWAYS: std::sync::atomic::AtomicBool = std::sync::atomic::AtomicBool::new(false);
+
+/// colour mode of the app-level children: `never` unless the request ends with the word `always`
+fn cc() -> ColorChoice {
+    if COLOR_ALWAYS.load(std::sync::atomic::Ordering::Relaxed) {
+        ColorChoice::Always
+    } else {
+        ColorChoice::Never
+    }
+}
+
+fn set_color(word: Option<&&str>) {
+    COLOR_ALWAYS.store(word.map(|w| *w == "always").unwrap_or(false), std::sync::atomic::Ordering::Relaxed);
+}
+
 fn opt_for(path: &str, level: u8) -> HyeongOption {
     HyeongOption::new()
-        .color(ColorChoice::Never)
+        .color(cc())
         .input(PathBuf::from(path))
         .optimize(level)
 }
@@ -893,33 +908,33 @@ fn opt_for(path: &str, level: u8) -> HyeongOption {
 /// the real `run::run`, wired exactly as `main` wires it
 fn run_child(path: &str, level: u8, budget: u64) {
     hyeong::verif::set_step_budget(budget);
-    let mut stdout = StandardStream::stdout(ColorChoice::Never);
-    let mut stderr = StandardStream::stderr(ColorChoice::Never);
-    let mut stderr_copy = StandardStream::stderr(ColorChoice::Never);
+    let mut stdout = StandardStream::stdout(cc());
+    let mut stderr = StandardStream::stderr(cc());
+    let mut stderr_copy = StandardStream::stderr(cc());
     let r = hyeong::app::run::run(&mut stdout, &mut stderr_copy, &opt_for(path, level));
     hio::handle(&mut stderr, r);
 }
 
 fn check_child(path: &str) {
-    let mut stdout = StandardStream::stdout(ColorChoice::Never);
-    let mut stderr = StandardStream::stderr(ColorChoice::Never);
+    let mut stdout = StandardStream::stdout(cc());
+    let mut stderr = StandardStream::stderr(cc());
     let r = hyeong::app::check::run(&mut stdout, &opt_for(path, 0));
     hio::handle(&mut stderr, r);
 }
 
 fn debug_child(path: &str) {
-    let mut stdout = StandardStream::stdout(ColorChoice::Never);
-    let mut stderr = StandardStream::stderr(ColorChoice::Never);
+    let mut stdout = StandardStream::stdout(cc());
+    let mut stderr = StandardStream::stderr(cc());
     let r = hyeong::app::debug::run(&mut stdout, &opt_for(path, 0));
     hio::handle(&mut stderr, r);
 }
 
 fn repl_child() {
-    let mut stdout = StandardStream::stdout(ColorChoice::Never);
-    let mut stderr = StandardStream::stderr(ColorChoice::Never);
+    let mut stdout = StandardStream::stdout(cc());
+    let mut stderr = StandardStream::stderr(cc());
     let r = hyeong::app::interpreter::run(
         &mut stdout,
-        &HyeongOption::new().color(ColorChoice::Never),
+        &HyeongOption::new().color(cc()),
     );
     hio::handle(&mut stderr, r);
 }
@@ -1055,12 +1070,14 @@ fn main() {
                 let budget = f[3].parse::<u64>().unwrap();
                 let input = unhex(f[4]);
                 let t = f[5].parse::<u32>().unwrap();
+                set_color(f.get(6));
                 wr.flush().unwrap();
                 let r = fork_run(&input, t, || run_child(&path, level, budget));
                 writeln!(wr, "{}", child_line(&r)).unwrap();
             }
             "check" => {
                 let path = unhex_str(f[1]);
+                set_color(f.get(2));
                 wr.flush().unwrap();
                 let r = fork_run(b"", 20, || check_child(&path));
                 writeln!(wr, "{}", child_line(&r)).unwrap();
@@ -1070,6 +1087,7 @@ fn main() {
                 let path = unhex_str(f[1]);
                 let script = unhex(f[2]);
                 let t = f[3].parse::<u32>().unwrap();
+                set_color(f.get(4));
                 wr.flush().unwrap();
                 let r = fork_run(&script, t, || debug_child(&path));
                 writeln!(wr, "{}", child_line(&r)).unwrap();
@@ -1077,6 +1095,7 @@ fn main() {
             "repl" => {
                 let script = unhex(f[1]);
                 let t = f[2].parse::<u32>().unwrap();
+                set_color(f.get(3));
                 wr.flush().unwrap();
                 let r = fork_run(&script, t, repl_child);
                 writeln!(wr, "{}", child_line(&r)).unwrap();
